@@ -3,6 +3,7 @@
 //! still fails. Every candidate is a full simulated run of the real code.
 use crate::analysis::View;
 use crate::interp::run_scenario;
+use crate::isolate::isolated;
 use crate::model::*;
 use crate::props::PropDef;
 
@@ -16,9 +17,18 @@ pub struct Minimiser<'a> {
 impl<'a> Minimiser<'a> {
     pub fn fails(&mut self, sc: &Scenario) -> bool {
         self.runs += 1;
-        let out = run_scenario(sc);
-        let v = View::new(sc, &out);
-        (self.prop.check)(&v).iter().any(|x| x.rule == self.rule)
+        let check = self.prop.check;
+        let rule = self.rule.clone();
+        let sc = sc.clone();
+        // every candidate is a run of its own: isolated from the ones before it
+        isolated(move || {
+            let out = run_scenario(&sc);
+            let v = View::new(&sc, &out);
+            let hit = check(&v).iter().any(|x| x.rule == rule);
+            let _ = crate::log::take_probes();
+            hit
+        })
+        .unwrap_or(false)
     }
 
     fn try_replace(&mut self, cur: &mut Scenario, cand: Scenario) -> bool {
